@@ -53,7 +53,12 @@ def check_drain_loop(ctx, func, qual, list_expr, rule="R-DRAIN-LIFO"):
                                                and isinstance(p.args[0].operand, ast.Constant) and p.args[0].operand.value == 1))
     ctx.check(rule, f"{qual}: removes the last element", p, lifo,
               f"`{norm(p)}` does not remove the most recently registered cleanup (reverse registration order is lost)", construct=f"{qual}::pop-last")
-    jumps = [x for x in walk_shallow(lp) if isinstance(x, (ast.Break, ast.Return, ast.Raise)) and not (true_try and isinstance(x, ast.Break))]
+    def generator_close(x):
+        # `except GeneratorExit: raise` only lets the generator be closed; it skips nothing
+        h = getattr(x, "_parent", None)
+        return isinstance(x, ast.Raise) and x.exc is None and isinstance(h, ast.ExceptHandler) and h.type is not None and norm(h.type) == "GeneratorExit" and len(h.body) == 1
+
+    jumps = [x for x in walk_shallow(lp) if isinstance(x, (ast.Break, ast.Return, ast.Raise)) and not (true_try and isinstance(x, ast.Break)) and not generator_close(x)]
     ctx.check(rule, f"{qual}: no early exit from the loop", lp, not jumps,
               f"the drain loop can be left by `{norm(jumps[0]) if jumps else ''}`: the remaining cleanups would not run", construct=f"{qual}::no-early-exit")
     return lp, p
